@@ -35,9 +35,25 @@ _orig_find = S.Cell._find_placements
 _orig_put = S.Server.put
 
 
-def _find_wrap(self, queue, servers):
+def _find_wrap(self, queue, *args, **kwargs):
+    # signature-agnostic: only the queue is observed
     _QUEUES.append([a.name for a in queue])
-    return _orig_find(self, queue, servers)
+    return _orig_find(self, queue, *args, **kwargs)
+
+
+_orig_restore = S.Server.restore
+
+
+def _restore_wrap(self, app, *args, **kwargs):
+    rc = _orig_restore(self, app, *args, **kwargs)
+    if rc and not any(a == app.name and st.startswith('Server.restore')
+                      for a, st, _s in _PUT_LOG[-1:]):
+        # a restore that did not go through Server.put
+        f = sys._getframe(1)
+        site = 'Server.restore<-' + f.f_code.co_name
+        _PUT_SITES[app.name] = site
+        _PUT_LOG.append((app.name, site, self.name))
+    return rc
 
 
 def _put_wrap(self, app):
@@ -63,6 +79,7 @@ def _put_wrap(self, app):
 
 S.Cell._find_placements = _find_wrap
 S.Server.put = _put_wrap
+S.Server.restore = _restore_wrap
 
 
 def vec(a):
